@@ -7,6 +7,8 @@ package interp
 import (
 	"fmt"
 	"go/types"
+	"reflect"
+	"strings"
 )
 
 func deepCopy(v value, t types.Type) value {
@@ -70,6 +72,121 @@ func deepCopy(v value, t types.Type) value {
 	return v
 }
 
+// protoField describes one field of a generated message struct from its `protobuf:"..."` tag.
+type protoField struct {
+	idx  int
+	num  string
+	wire string // varint, bytes, fixed32, fixed64, zigzag32, ...
+	rep  bool
+}
+
+func protoFields(st *types.Struct) []protoField {
+	var out []protoField
+	for i := 0; i < st.NumFields(); i++ {
+		tag := reflect.StructTag(st.Tag(i)).Get("protobuf")
+		if tag == "" {
+			continue
+		}
+		parts := strings.Split(tag, ",")
+		if len(parts) < 2 {
+			continue
+		}
+		f := protoField{idx: i, wire: parts[0], num: parts[1]}
+		for _, p := range parts[2:] {
+			if p == "rep" {
+				f.rep = true
+			}
+		}
+		out = append(out, f)
+	}
+	return out
+}
+
+// protoTranscode builds a message of struct type dstT from a message value of struct type
+// srcT the way the wire format would: fields are matched by number and wire type; varint
+// fields carry their integer, length-delimited fields their bytes (string <-> bytes) or, for
+// nested messages, their transcoded content. Anything else is unsupported.
+func protoTranscode(src value, srcT, dstT types.Type) value {
+	sst, ok1 := srcT.Underlying().(*types.Struct)
+	dst, ok2 := dstT.Underlying().(*types.Struct)
+	sv, ok3 := src.(structure)
+	if !ok1 || !ok2 || !ok3 {
+		panic(unsupported{fmt.Sprintf("proto transcoding of %s into %s", srcT, dstT)})
+	}
+	out := zero(dstT).(structure)
+	sf := protoFields(sst)
+	for _, df := range protoFields(dst) {
+		for _, f := range sf {
+			if f.num != df.num {
+				continue
+			}
+			if f.wire != df.wire || f.rep != df.rep {
+				panic(unsupported{fmt.Sprintf("proto transcoding: field %s of %s (%s) into %s (%s)", f.num, srcT, f.wire, dstT, df.wire)})
+			}
+			out[df.idx] = protoTranscodeField(sv[f.idx], sst.Field(f.idx).Type(), dst.Field(df.idx).Type(), f.wire)
+		}
+	}
+	return out
+}
+
+func protoTranscodeField(v value, srcT, dstT types.Type, wire string) value {
+	if ss, ok := srcT.Underlying().(*types.Slice); ok {
+		if ds, ok := dstT.Underlying().(*types.Slice); ok {
+			if b, isByte := ss.Elem().Underlying().(*types.Basic); !isByte || b.Kind() != types.Uint8 {
+				sl, _ := v.([]value)
+				if len(sl) == 0 {
+					return []value(nil)
+				}
+				res := make([]value, len(sl))
+				for i := range sl {
+					res[i] = protoTranscodeField(sl[i], ss.Elem(), ds.Elem(), wire)
+				}
+				return res
+			}
+		}
+	}
+	switch wire {
+	case "varint":
+		sb, ok1 := srcT.Underlying().(*types.Basic)
+		db, ok2 := dstT.Underlying().(*types.Basic)
+		if ok1 && ok2 && sb.Kind() == db.Kind() {
+			return v
+		}
+		if ok1 && ok2 && sb.Info()&types.IsInteger != 0 && db.Info()&types.IsInteger != 0 && !isSym(v) {
+			return concreteOf(uint64(asInt64c(v)), db.Kind())
+		}
+	case "bytes":
+		sp, ok1 := srcT.Underlying().(*types.Pointer)
+		dp, ok2 := dstT.Underlying().(*types.Pointer)
+		if ok1 && ok2 {
+			p, _ := v.(*value)
+			if p == nil {
+				return (*value)(nil)
+			}
+			c := protoTranscode(*p, sp.Elem(), dp.Elem())
+			return &c
+		}
+		_, sIsStr := srcT.Underlying().(*types.Basic)
+		_, dIsStr := dstT.Underlying().(*types.Basic)
+		_, sIsBytes := srcT.Underlying().(*types.Slice)
+		_, dIsBytes := dstT.Underlying().(*types.Slice)
+		switch {
+		case sIsStr && dIsStr, sIsBytes && dIsBytes:
+			return deepCopy(v, srcT)
+		case sIsStr && dIsBytes:
+			b := strBytes(v)
+			if len(b) == 0 {
+				return []value(nil)
+			}
+			return append([]value(nil), b...)
+		case sIsBytes && dIsStr:
+			b, _ := v.([]value)
+			return mkstr(b)
+		}
+	}
+	panic(unsupported{fmt.Sprintf("proto transcoding of a %s field %s into %s", wire, srcT, dstT)})
+}
+
 type protoToken struct {
 	t types.Type
 	v value
@@ -106,7 +223,17 @@ func registerProtoStubs(e *Engine) {
 		}
 		tok := o.p.(*protoToken)
 		if !types.Identical(tok.t, m.t) {
-			panic(unsupported{fmt.Sprintf("proto.Unmarshal of %s into %s", tok.t, m.t)})
+			// bytes of another message type: the real decoder reads them field number by field
+			// number (wire-compatible schemas decode "successfully" into something else).
+			// Modelled by transcoding the fields whose numbers and wire types match.
+			fr.ex.notes = append(fr.ex.notes, fmt.Sprintf("proto.Unmarshal of %s bytes into %s (transcoded by field number)", tok.t, m.t))
+			src, ok := tok.v.(*value)
+			if !ok || src == nil {
+				store(elemT, dst, zero(elemT))
+				return iface{}
+			}
+			store(elemT, dst, protoTranscode(*src, mustDeref(tok.t), elemT))
+			return iface{}
 		}
 		cp := deepCopy(tok.v, tok.t).(*value)
 		store(elemT, dst, *cp)
